@@ -73,18 +73,35 @@ func (c *vxCanvas) Paint(op backend.PaintOp) {
 		c.emit(vxColorName(c.fill))
 	}
 }
-func (c *vxCanvas) Rectangle(x, y, width, height backend.Fl) { c.pathOpen = true }
-func (c *vxCanvas) MoveTo(x, y backend.Fl)                   { c.pathOpen = true }
-func (c *vxCanvas) LineTo(x, y backend.Fl)                   { c.pathOpen = true }
+
+// finite records a protocol error when a number handed to the backend is NaN or infinite
+func (c *vxCanvas) finite(where string, vs ...backend.Fl) {
+	for _, v := range vs {
+		if !vx.Finite(float64(v)) {
+			*c.protocol = append(*c.protocol, "non-finite:"+where)
+		}
+	}
+}
+func (c *vxCanvas) Rectangle(x, y, width, height backend.Fl) {
+	c.finite("Rectangle", x, y, width, height)
+	c.pathOpen = true
+}
+func (c *vxCanvas) MoveTo(x, y backend.Fl) { c.finite("MoveTo", x, y); c.pathOpen = true }
+func (c *vxCanvas) LineTo(x, y backend.Fl) { c.finite("LineTo", x, y); c.pathOpen = true }
 func (c *vxCanvas) CubicTo(x1, y1, x2, y2, x3, y3 backend.Fl) {
+	c.finite("CubicTo", x1, y1, x2, y2, x3, y3)
 	c.pathOpen = true
 }
 func (c *vxCanvas) ClosePath()                                                   {}
 func (c *vxCanvas) AddFont(font backend.Font, content []byte) *backend.FontChars { return nil }
 func (c *vxCanvas) DrawText(texts []backend.TextDrawing)                         {}
 func (c *vxCanvas) DrawRasterImage(image backend.RasterImage, width, height backend.Fl) {
+	c.finite("DrawRasterImage", width, height)
 }
-func (c *vxCanvas) DrawGradient(gradient backend.GradientLayout, width, height backend.Fl) {}
+func (c *vxCanvas) DrawGradient(gradient backend.GradientLayout, width, height backend.Fl) {
+	c.finite("DrawGradient", width, height)
+	c.emit("gradient")
+}
 
 func (c *vxCanvas) SetAlphaMask(mask backend.Canvas) {}
 func (c *vxCanvas) Clip(evenOdd bool) {
@@ -93,7 +110,7 @@ func (c *vxCanvas) Clip(evenOdd bool) {
 	}
 	c.pathOpen = false
 }
-func (c *vxCanvas) SetAlpha(alpha backend.Fl, stroke bool) {}
+func (c *vxCanvas) SetAlpha(alpha backend.Fl, stroke bool) { c.finite("SetAlpha", alpha) }
 func (c *vxCanvas) SetColorRgba(color parser.RGBA, stroke bool) {
 	if stroke {
 		c.stroke = color
@@ -104,13 +121,16 @@ func (c *vxCanvas) SetColorRgba(color parser.RGBA, stroke bool) {
 
 func (c *vxCanvas) SetColorPattern(pattern backend.Canvas, contentWidth, contentHeight backend.Fl, mat matrix.Transform, stroke bool) {
 }
-func (c *vxCanvas) SetBlendingMode(mode string)                    {}
-func (c *vxCanvas) SetLineWidth(width backend.Fl)                  {}
-func (c *vxCanvas) SetDash(dashes []backend.Fl, offset backend.Fl) {}
-func (c *vxCanvas) SetStrokeOptions(backend.StrokeOptions)         {}
-func (c *vxCanvas) GetTransform() matrix.Transform                 { return matrix.Identity() }
-func (c *vxCanvas) Transform(mt matrix.Transform)                  {}
-func (c *vxCanvas) SetTextPaint(op backend.PaintOp)                {}
+func (c *vxCanvas) SetBlendingMode(mode string)   {}
+func (c *vxCanvas) SetLineWidth(width backend.Fl) {}
+func (c *vxCanvas) SetDash(dashes []backend.Fl, offset backend.Fl) {
+	c.finite("SetDash", offset)
+	c.finite("SetDash", dashes...)
+}
+func (c *vxCanvas) SetStrokeOptions(backend.StrokeOptions) {}
+func (c *vxCanvas) GetTransform() matrix.Transform         { return matrix.Identity() }
+func (c *vxCanvas) Transform(mt matrix.Transform)          {}
+func (c *vxCanvas) SetTextPaint(op backend.PaintOp)        {}
 
 type vxPNode struct {
 	tag                                    string
